@@ -126,7 +126,9 @@ func (c *Conn) Read(b []byte) (int, error) {
 			return 0, fmt.Errorf("unexpected error: %w", io.ErrUnexpectedEOF)
 		}
 		if n.S != nil {
+			c.Waiting++
 			n.S.Wait(c)
+			c.Waiting--
 		} else {
 			c.Waiting++
 			n.cond.Wait()
@@ -203,6 +205,22 @@ func (c *Conn) Close() error {
 func (c *Conn) push(frame []byte) {
 	c.in = binary.LittleEndian.AppendUint32(c.in, uint32(len(frame)))
 	c.in = append(c.in, frame...)
+}
+
+// PushRaw appends one raw server frame (any bytes) to the client's inbound stream, outside the reference
+// server's menu (used for follow-up traffic after an aborted exchange).
+func (c *Conn) PushRaw(frame []byte) {
+	c.net.lock()
+	c.push(frame)
+	c.net.unlock()
+	if c.net.S == nil {
+		c.net.cond.Broadcast()
+	}
+}
+
+// Drained: everything pushed was consumed and the reader waits for more (or the connection is gone).
+func (c *Conn) Drained() bool {
+	return !c.live() || (len(c.in) == 0 && c.Waiting > 0)
 }
 
 // Do performs one server action on this connection.
